@@ -507,6 +507,18 @@ func NewStack(cfg Config) (*Stack, error) {
 	}
 	prot = authboss.Middleware2(ab, cfg.ProtReqs, cfg.ProtFail)(prot)
 	mux.Handle("/app/prot", prot)
+	// the lock / confirm middlewares on their own, as an application mounts them on routes that are
+	// not behind authboss.Middleware2 (they load the session user themselves)
+	if cfg.Has("confirm") || cfg.Has("lock") {
+		var guard http.Handler = http.HandlerFunc(s.probeHandler("guard"))
+		if cfg.Has("confirm") {
+			guard = confirm.Middleware(ab)(guard)
+		}
+		if cfg.Has("lock") {
+			guard = lock.Middleware(ab)(guard)
+		}
+		mux.Handle("/app/guard", guard)
+	}
 	var full http.Handler = http.HandlerFunc(s.probeHandler("full"))
 	full = authboss.Middleware2(ab, authboss.RequireFullAuth, cfg.ProtFail)(full)
 	mux.Handle("/app/full", full)
